@@ -18,10 +18,17 @@ T == Batch[tid]
 TraceInit == /\ tid \in 1..Len(Batch) /\ l = 1 /\ fails = {} /\ drift = {}
              /\ pc = "hist" /\ hist = <<>> /\ eps = <<0, 0>> /\ store = 0 /\ legal = 0 /\ probe = "" /\ result = <<>>
 
-\* e = <<kind, scale, eps_written, store_size>>
+\* e = <<kind, scale, eps_written, store_size, refused>>
+\* A history operation that the library REFUSED (an ill-formed design, a request it rejects half-way) may or may not have
+\* got as far as deriving the tolerances: the model follows the observation there (OpRefused) instead of predicting it.
+OpRefused(k, s, written) ==
+            /\ hist' = Append(hist, <<k, s>>)
+            /\ eps' = IF written = 1 /\ eps[1] = 0 THEN <<Len(hist) + 1, s>> ELSE eps
+            /\ store' = IF k = "encode" THEN store + 1 ELSE store
+            /\ legal' = IF k = "legal" THEN legal + 1 ELSE legal
 HistEvent == /\ l <= Len(T.hist)
              /\ LET e == T.hist[l] IN
-                  /\ Op(e[1], e[2])
+                  /\ IF e[5] = 1 /\ e[1] \in Loaders THEN OpRefused(e[1], e[2], e[3]) ELSE Op(e[1], e[2])
                   /\ drift' = drift
                        \cup (IF (e[3] = 1) # ((eps[1] = 0 /\ eps'[1] # 0) \/ (eps[1] # 0 /\ eps'[1] = 0))
                              THEN {<<l, "eps_written_by_unexpected_step">>} ELSE {})
